@@ -367,8 +367,13 @@ class StepBudget:
 
 
 class budget:
-    def __init__(self, n):
+    """Step budget for the desper lines executed inside the block. Nested
+    budgets charge the enclosing one, unless charge=False (the oracle's own
+    queries, issued while an operation's budget is running)."""
+
+    def __init__(self, n, charge=True):
         self.n = n
+        self.charge = charge
 
     def __enter__(self):
         StepBudget.install()
@@ -380,6 +385,6 @@ class budget:
     def __exit__(self, *exc):
         used = StepBudget.count
         StepBudget.count, StepBudget.limit = self.saved
-        if StepBudget.limit is not None:
+        if StepBudget.limit is not None and self.charge:
             StepBudget.count += used
         return False
